@@ -683,7 +683,7 @@ func c17Small(c *Ctx, depth int) {
 	rec(nil)
 	for ai, a := range stacks {
 		for bi, b := range stacks {
-			if c.Tier != "thorough" && (ai+bi)%3 != 0 {
+			if c.Tier != "thorough" && (ai+bi)%4 != 0 {
 				continue
 			}
 			for _, gran := range []string{"raw", "functions", "files"} {
@@ -711,6 +711,13 @@ func runC17(c *Ctx) {
 	cwd, _ := os.Getwd()
 	os.Setenv("XDG_CONFIG_HOME", cwd)
 	os.Setenv("HOME", cwd)
+	c17E2EEnv()
+
+	// end-to-end layer: driver.PProf -http with real flags, fetch pipeline and handlers
+	c17E2EFixed(c)
+	for k := 0; k < c.Budget(40, 2500); k++ {
+		c17E2ERandom(c, c.R)
+	}
 
 	// hand-made corner cases, always generated
 	{
@@ -769,7 +776,7 @@ func runC17(c *Ctx) {
 		}
 	}
 
-	n := c.Budget(800, 36000)
+	n := c.Budget(400, 30000)
 	for k := 0; k < n; k++ {
 		p := c17Profile(c.R, false)
 		gran := PickS(c.R, c17Grans)
@@ -782,7 +789,7 @@ func runC17(c *Ctx) {
 	}
 	// call sequences: the same report asked again ("repeat"), several reports over one profile asked
 	// in turn ("interleave"); half of the profiles with shared backing arrays
-	for k := 0; k < c.Budget(200, 6000); k++ {
+	for k := 0; k < c.Budget(160, 6000); k++ {
 		p := c17Profile(c.R, false)
 		gran := PickS(c.R, c17Grans)
 		c17Aggregate(p, gran, c.R.P(1, 4), c.R.P(1, 4))
@@ -821,10 +828,10 @@ func runC17(c *Ctx) {
 		}
 		c17Web(c, "web-hostile-names", p, c.R)
 	}
-	for k := 0; k < c.Budget(50, 1500); k++ {
+	for k := 0; k < c.Budget(35, 1200); k++ {
 		c17WebSeq(c, "web-session", c17Profile(c.R, true), c.R)
 	}
-	nw := c.Budget(220, 8000)
+	nw := c.Budget(150, 6000)
 	for k := 0; k < nw; k++ {
 		p := c17Profile(c.R, true)
 		gen := "web"
